@@ -286,7 +286,10 @@ pub fn run_c10(ctx: &Ctx) -> i32 {
 // ---------------------------------------------------------------------------------------------
 // C13: malformed responses
 
-const C13_STRINGS: [&str; 22] = ["", " ", "\t\n", "_", "_a", " _a", "a_", "a", " a ", "__", "é", "_é", "ab", "a ", "-", "  ", "x", " x ", "éé", "a_b", " ab ", "\n_k"];
+// (white space is what `char::is_whitespace` says: U+00A0, U+2003, U+0085 and the vertical tab U+000B
+// count, so a key or type made of them is blank)
+const C13_STRINGS: [&str; 29] = ["", " ", "\t\n", "_", "_a", " _a", "a_", "a", " a ", "__", "é", "_é", "ab", "a ", "-", "  ", "x", " x ", "éé", "a_b", " ab ", "\n_k",
+    "\u{a0}", "\u{2003}_x", "\u{a0}e", "\u{b}x\u{b}", "\u{85}ab\u{2003}", "\u{3000}", "a\u{a0}b"];
 const C13_POS: [&str; 7] = ["attr-key", "attr-value", "event-attr-key", "event-attr-value", "event-type", "attr-key-with-empty-value", "event-attr-key-with-blank-value"];
 
 fn c13_node(pos: usize, s: &str, idx: usize) -> Node {
@@ -585,7 +588,7 @@ pub fn run_c13(ctx: &Ctx) -> i32 {
         json!({"strings": strings.len(), "hand_picked_strings": C13_STRINGS, "generated_strings": if ctx.tier == Tier::Thorough { "every string of 1..=3 characters over {space, newline, underscore, a, é}" } else { "none (thorough tier only)" }, "positions": C13_POS, "entry_points": ["execute", "instantiate", "migrate", "sudo", "reply"], "contexts": "top level; sub-message under each reply_on; two levels deep under each reply_on; reply handler of ok/failed child under Success/Always/Error, one and two levels deep",
                "cases_with_invalid_string": invalid, "cases_with_valid_string": valid}),
         vec![],
-        vec!["only ASCII whitespace and non-whitespace Unicode occur in the string alphabet, so 'whitespace' is unambiguous".into()],
+        vec!["white space is taken as Unicode white space (char::is_whitespace), which is what trimming a Rust string means; the alphabet has ASCII and non-ASCII white space".into()],
         json!({}),
     )
 }
